@@ -300,6 +300,19 @@ class _SymOrder(ast.NodeTransformer):
             if (isinstance(l, ast.Constant) and not isinstance(r, ast.Constant)) or \
                     (not isinstance(l, ast.Constant) and not isinstance(r, ast.Constant) and unparse(l) > unparse(r)):
                 return ast.copy_location(ast.Compare(left=r, ops=n.ops, comparators=[l]), n)
+        if len(n.ops) == 1 and isinstance(n.ops[0], (ast.Gt, ast.GtE)):
+            # a > b -> b < a ; a >= b -> b <= a  (exact, also element-wise and for NaN)
+            return ast.copy_location(ast.Compare(left=n.comparators[0], ops=[ast.Lt() if isinstance(n.ops[0], ast.Gt) else ast.LtE()], comparators=[n.left]), n)
+        return n
+
+
+class _TupleConcat(ast.NodeTransformer):
+    """(a, b) + (c,)  ->  (a, b, c)   for tuple literals"""
+
+    def visit_BinOp(self, n):
+        self.generic_visit(n)
+        if isinstance(n.op, ast.Add) and isinstance(n.left, ast.Tuple) and isinstance(n.right, ast.Tuple):
+            return ast.copy_location(ast.Tuple(elts=n.left.elts + n.right.elts, ctx=ast.Load()), n)
         return n
 
 
@@ -344,6 +357,7 @@ def alpha(f):
     kw = {a.kwarg.arg for a in [getattr(f, "args", None)] if a is not None and a.kwarg}
     if kw:
         f = _KwargKeys(kw).visit(f)
+    f = _TupleConcat().visit(f)
     return _SymOrder().visit(f)
 
 
